@@ -278,7 +278,11 @@ func TestVerifDriverC07Concurrent(t *testing.T) {
 						atomic.AddInt64(&made, n)
 					}(w)
 				}
-				time.Sleep(400 * time.Millisecond)
+				window := 400 * time.Millisecond
+				if os.Getenv("VERIF_DRIVER_REASON") == "thorough" {
+					window = 1500 * time.Millisecond // thorough tier
+				}
+				time.Sleep(window)
 				atomic.StoreInt32(&stop, 1)
 				wg.Wait()
 				_ = closer.Close()
